@@ -30,6 +30,10 @@ fn main() {
             };
             let mut sub: Option<String> = None;
             let mut threads = std::thread::available_parallelism().map(|n| n.get()).unwrap_or(8).min(16);
+            // MTV_THREADS: number of worker processes (generated sub-checks split the same number of cases over them)
+            if let Some(n) = std::env::var("MTV_THREADS").ok().and_then(|s| s.parse::<usize>().ok()) {
+                threads = n.clamp(1, 64);
+            }
             let mut i = 3;
             while i < args.len() {
                 match args[i].as_str() {
